@@ -126,6 +126,21 @@ def make_config(spec):
         cfg["engine0"] = dict(engine)
         cfg["simulation"]["ensemble_engines"] = (
             [["engine0"]] + [["engine"]] * (n - 1))
+    if spec.get("engines2"):
+        # every ensemble lists TWO engines (the move uses the first one);
+        # the second has visibly different dynamics
+        e2 = dict(engine)
+        if eng == "lattice" and "wf" not in moves:
+            e2["subcycles"] = 2
+        elif eng == "lattice":
+            e2["wall"] = engine["wall"] - 1
+        else:
+            e2["lo"] = engine["lo"] - 1
+        cfg["engine2"] = e2
+        first = cfg["simulation"].get("ensemble_engines") or \
+            [["engine"]] * n
+        cfg["simulation"]["ensemble_engines"] = [a + ["engine2"]
+                                                 for a in first]
     return cfg
 
 
@@ -150,6 +165,11 @@ def make_turtle_config(spec):
                      "delete_old": bool(spec.get("delete_old", False))}
     if spec.get("delete_old_all"):
         cfg["output"]["delete_old_all"] = True
+    if spec.get("engine0"):
+        # a dedicated engine section for [0-] (multi-engine layout)
+        cfg["engine0"] = dict(cfg["engine"])
+        sim["ensemble_engines"] = [["engine0"]] + \
+            [["engine"]] * (len(sim["interfaces"]) - 1)
     return cfg
 
 
